@@ -379,6 +379,35 @@ fn dyadic_log_operands_m(l: Layout, mbits: u32) -> Vec<u128> {
     v
 }
 
+/// Operands related to their own square root: (m/2)^2 with offsets of 0, +-1, +-2, +-(m-1), +-m, +-(m+1), +-2m, +-3m and
+/// +-10m ulp. Near these the truncated Newton iteration of sqrt oscillates between two neighbours, and the
+/// division operand / l of its last steps has a quotient digit estimate at the top of its range (the running
+/// remainder shares its high half with the divisor).
+fn square_operands(l: Layout, mmax: u128) -> Vec<u128> {
+    let m = mask(l.w);
+    let top = if l.signed { l.w - 1 } else { l.w };
+    let mut v = vec![];
+    let mut seen = std::collections::HashSet::new();
+    if l.frac < 2 || l.frac >= 126 {
+        return v;
+    }
+    for h in 2..=mmax {
+        // (h/2)^2 = h^2 / 4 in raw units: h^2 << (frac - 2)
+        let sq = h * h;
+        if sq.leading_zeros() < l.frac - 2 + (128 - top) + 1 {
+            break;
+        }
+        let base = sq << (l.frac - 2);
+        for k in [0u128, 1, 2, h - 1, h, h + 1, 2 * h, 3 * h - 1, 3 * h, 10 * h, 10] {
+            push_unique(&mut v, &mut seen, base + k, m);
+            if base >= k {
+                push_unique(&mut v, &mut seen, base - k, m);
+            }
+        }
+    }
+    v
+}
+
 fn exponents(tier: Tier) -> Vec<i32> {
     let mut v: Vec<i32> = (-64..=64).collect();
     for k in 7..31 {
@@ -717,9 +746,20 @@ fn explore_pair(p: &Pair, func: usize, prop: Prop, tier: Tier, chunk: Option<(us
     set_limit(limit);
     let mut ops = if thin { operands_n(s, 1, tier, 20) } else { operands(s, grid_bits(s, tier), tier) };
     if func < 4 {
-        let seen: std::collections::HashSet<u128> = ops.iter().copied().collect();
+        let mut seen: std::collections::HashSet<u128> = ops.iter().copied().collect();
         let dy = if thin { dyadic_log_operands_m(s, 2) } else { dyadic_log_operands(s, tier) };
-        ops.extend(dy.into_iter().filter(|x| !seen.contains(x)));
+        for x in dy {
+            if seen.insert(x) {
+                ops.push(x);
+            }
+        }
+        if func == 0 {
+            for x in square_operands(s, if thin { 24 } else if tier == Tier::Quick { 200 } else { 3000 }) {
+                if seen.insert(x) {
+                    ops.push(x);
+                }
+            }
+        }
     }
     let ops: &[u128] = match chunk {
         Some((i, n)) => {
@@ -750,7 +790,16 @@ fn explore_pair(p: &Pair, func: usize, prop: Prop, tier: Tier, chunk: Option<(us
         let Some(pow) = p.pow else { return acc };
         // bases x exponents: thinner grids
         let g = if tier == Tier::Quick { 1 } else { 3 };
-        let bases: Vec<u128> = if thin { thinned(&essentials, &operands_n(s, 0, Tier::Quick, 20), 7, sm) } else { operands(s, g, Tier::Quick) };
+        let mut bases: Vec<u128> = if thin { thinned(&essentials, &operands_n(s, 0, Tier::Quick, 20), 7, sm) } else { operands(s, g, Tier::Quick) };
+        {
+            // bases whose logarithm is a dyadic rational (neighbours of 2^(k + j/8)) in the octaves around one and in
+            // one far octave: pow goes through log2, whose bit loop meets its comparison with equality there
+            let seen: std::collections::HashSet<u128> = bases.iter().copied().collect();
+            let one_bits = s.frac as i64;
+            let octave = |x: u128| 127 - (x.leading_zeros() as i64) - one_bits;
+            let dy = dyadic_log_operands_m(s, if thin { 1 } else { 3 });
+            bases.extend(dy.into_iter().filter(|x| !seen.contains(x) && !s.is_neg(*x) && *x != 0 && [-2i64, -1, 0, 1, 9].contains(&octave(*x))));
+        }
         let exps: Vec<u128> = {
             let mut v = operands(s, if tier == Tier::Quick { 0 } else { 1 }, Tier::Quick);
             // exponents of moderate size matter most
